@@ -5,7 +5,7 @@ LEVEL = 'proof'
 UNITS = [snapshot.head_unit('C07'), snapshot.flatten_unit('C07'), snapshot.worker_unit('C07'), snapshot.producer_unit('C07'), snapshot.tail_unit('C07'), loc.chunk_loc_unit('C07'), misc.chunkify_unit('C07')] + loc.parts_units('C07')[:1] + misc.hashlib_adapter_units('C07') + keys.make_key_units('C07') + retry.requires_auth_units('C07')
 from specs import families as _families
 UNITS = _families.with_families('C07', UNITS)
-BOUNDED = [{'name': 'C07.history', 'script': 'bounded/hist.py', 'timeout': 1200, 'args': {'prop': 'C07'}, 'bound': 'random histories of snapshot/delete/clean by owner, shared-key and independent-key users (and one unencrypted user): <= 10 operations, <= 4 paths per snapshot from 6 overlapping contents, chunks 8..64, 5 (thorough: 40) seeded histories per mode, each with one of three object lifetimes (a fresh Repository per command as the CLI does / one per user / ONE object re-unlocked with the key of whoever issues the next command); every remaining snapshot is restored by its owner after each destructive step; a scripted history deleting several snapshots in ONE call (two snapshots of unchanged data sharing chunks only with each other; two with distinct chunks, both name orders)'}]
+BOUNDED = [{'name': 'C07.history', 'script': 'bounded/hist.py', 'timeout': 1200, 'args': {'prop': 'C07'}, 'bound': 'five equal-sized unchanged files given reversed / rotated / as their directory (no chunk object may be added); random histories of snapshot/delete/clean by owner, shared-key and independent-key users (and one unencrypted user): <= 10 operations, <= 4 paths per snapshot from 6 overlapping contents, chunks 8..64, 5 (thorough: 40) seeded histories per mode, each with one of three object lifetimes (a fresh Repository per command as the CLI does / one per user / ONE object re-unlocked with the key of whoever issues the next command); every remaining snapshot is restored by its owner after each destructive step; a scripted history deleting several snapshots in ONE call (two snapshots of unchanged data sharing chunks only with each other; two with distinct chunks, both name orders)'}]
 TRUSTED = [
     'vf symbolic executor (/verif/vf): encoding of the Python subset (DESIGN 2.2)',
     'z3 5.1 (API + z3-new CLI), cvc5 1.0.3 (strings)',
